@@ -704,6 +704,7 @@ func TestCheck(t *testing.T) {
 		return
 	}
 	blockedWriter(t, rep, shard, of)
+	lateReader(t, rep, shard, of)
 	rep.Info["rule"] = "history = sequence of abstract letters (one client frame or one handler release each), instantiated against the reference machine's state (next odd id / an open stream / the half-closed stream / the stream closed last / an idle id) and replayed on a fresh real http2 serverConn in its own bubble; phases '<config>/depthN' execute EVERY letter sequence of length <= N over the full alphabet (after a connection error only the probe letters H_NEW_ES_NOW, H_NEW_HOLD, PING, RELEASE continue a history; a history stops after a connection-fatal frame that was answered with an admissible stream error only); phases '.../core/depthN/pruned' run the 24 core letters to depth N and expand one representative history per (reference state, remaining depth); configs: first-frame = nothing after the preface, maxK = preface+SETTINGS with SETTINGS_MAX_CONCURRENT_STREAMS=K; states = distinct (config, reference machine state) keys reached; distinct_nontrivial = distinct (letter, (frame,state) class, reaction class) triples in which the server reacted with more than nothing or the frame was not plain-legal"
 	rep.Info["bounds_note"] = "the design asked for 26 letters, full depth 3 (quick) / 4 (thorough) and depths 5-7 pruned on the reference state over the same alphabet. Implemented: 74 letters (every design letter plus length/flag/id variants), full depth 3 / 4 for two concurrency limits (2 as designed, and 1 so that 'refused stream' histories fit the depth), first-frame histories to depth 2 / 3; the pruned deep phases use the 24 'core' letters (depth 5 quick; depth 6 for limit 2 and depth 7 for limit 1 thorough) because the full alphabet at depth 5 exceeds the time budget even with pruning (more than 1.0 M executions, measured)"
 	rep.Info["alphabet"] = letterNames()
